@@ -925,6 +925,7 @@ def signature(kind, msg):
     pick = re.sub(r'^[\w./-]+:\d+:\d+:\s*', '', pick)
     pick = re.sub(r'/[\w/.\-]+', '<path>', pick)
     pick = re.sub(r'\d+', 'N', pick)
+    pick = re.sub(r"local variable '\w+'", "local variable 'V'", pick)
     pick = re.sub(r'\s+', ' ', pick)
     return f'{kind}:{pick[:90]}'
 
